@@ -17,6 +17,19 @@ def key_of(rj):
         return 'trace'
 
 
+def bind(ck, tag='c11'):
+    """binding of the real Blake2b code to the TLA+ definition (also used by C02 for the Blake2b arrows of the composition)"""
+    exe = vlib.build_harness('rx_blake')
+    tr = os.path.join(vlib.WORK, tag + '.ndjson')
+    lines = vlib.run_harness([exe, '--seed', str(ck.seed), '--tier', ck.tier, '--out', tr], tr, timeout=300)
+    res = vlib.validate_sharded('TraceBlake', 'TraceBlake.cfg', lines, tag, shards=16, timeout=1500)
+    ck.add_traces('TraceBlake', res, 'one-shot / streaming / blake2b_long / commitment calls on the real code')
+    ck.reject('TraceBlake', res, key_of)
+    if os.path.exists(tr):
+        os.remove(tr)
+    return lines
+
+
 def run():
     ck = vlib.Check('C11', 'model_checking')
     # 1. exhaustive: streaming machine, all chunkings, small block
@@ -28,13 +41,7 @@ def run():
     ck.add_model('MCBlake', r, 'B=4, TMod=8, message lengths 0..%d, keys {none,1,4 bytes}, outlen {1,4}, all chunkings' % maxlen)
     if not r['ok']:
         ck.violation('model:MCBlake', 'streaming machine violates an invariant in the model', vlib.tlc_error_summary(r['out']))
-    # 2. binding: record the real code, validate against RFC 7693 in TLA+
-    exe = vlib.build_harness('rx_blake')
-    tr = os.path.join(vlib.WORK, 'c11.ndjson')
-    lines = vlib.run_harness([exe, '--seed', str(ck.seed), '--tier', ck.tier, '--out', tr], tr, timeout=300)
-    res = vlib.validate_sharded('TraceBlake', 'TraceBlake.cfg', lines, 'c11', shards=16, timeout=1500)
-    ck.add_traces('TraceBlake', res, 'one-shot / streaming / blake2b_long / commitment calls on the real code')
-    ck.reject('TraceBlake', res, key_of)
+    lines = bind(ck)
     kinds = {}
     for l in [x for x in lines if '"e": "Crash"' not in x]:
         ev = json.loads(l)
@@ -48,5 +55,4 @@ def run():
                       'trace: seeded calls, lengths around 128-byte block edges, all outlen 1..64, key lengths '
                       '0/1/31/32/63/64/random, invalid parameters; a case is one recorded call or session')
     ck.assumptions += ['Bitwise/SequencesExt Java overrides of the CommunityModules', 'messages < 2^30 bytes (counter carry is covered in the model with TMod=8 only)']
-    os.remove(tr)
     return ck.finish()
